@@ -178,6 +178,7 @@ package http2
 //@ func (*Server).afterFunc :: s, d, f -> t
 //@   trusted
 //@   assigns nothing
+//@   ensures t != nil
 //@ func net.Conn.SetReadDeadline :: c, t -> err
 //@   trusted
 //@   assigns nothing
@@ -497,3 +498,26 @@ package http2
 //@   loop 2 invariant -1 <= rangeindex && rangeindex < i && 0 <= i && i < len(pf) && pf == pfields(mh) && val(hf) == pf[i] && (forall b int :: 0 <= b && b <= rangeindex ==> pf[b].Name != hf.Name)
 //@   loop 2 invariant (forall a int, b int :: 0 <= a && a < b && b < i ==> pf[a].Name != pf[b].Name) && (forall a int :: 0 <= a && a <= i ==> reqPseudo(pf[a].Name) || pf[a].Name == ":status")
 //@   loop 2 invariant (isRequest <==> (exists a int :: 0 <= a && a <= i && reqPseudo(pf[a].Name))) && (isResponse <==> (exists a int :: 0 <= a && a <= i && pf[a].Name == ":status"))
+
+//@ -- C11: the serve loop arms the close timer once a GOAWAY has gone out: at once for an error GOAWAY, and for a
+//@ -- graceful one as soon as no stream is open -- also when none was open at the moment the GOAWAY was sent.
+//@ -- Checked at every turn of the loop (everything the turn does before the final test is havoc).
+//@ pure func closeTimerDue(sc *serverConn) bool = sc.inGoAway && !sc.needToSendGoAway && !sc.writingFrame && (sc.goAwayCode != 0 || (sc.curClientStreams + sc.curPushedStreams) % 4294967296 == 0)
+//@ func (*serverConn).curOpenStreams :: sc -> n
+//@   props C11
+//@   requires sc != nil
+//@   assigns nothing
+//@   ensures n == (sc.curClientStreams + sc.curPushedStreams) % 4294967296
+//@ func (*serverConn).shutDownIn :: sc, d
+//@   props C11
+//@   requires sc != nil && sc.srv != nil
+//@   assigns sc.shutdownTimer
+//@   ensures [C11:close-timer-armed] sc.shutdownTimer != nil
+//@ func (*serverConn).serve :: sc, conf
+//@   props C11
+//@   requires sc != nil && sc.srv != nil && sc.conn != nil
+//@   assigns unrestricted
+//@   may_panic
+//@   loop 1 invariant [C11:after-every-turn-the-close-timer-is-armed-whenever-a-sent-goaway-allows-closing] sc != nil && sc.srv != nil && (loopNum == 0 || (closeTimerDue(sc) ==> sc.shutdownTimer != nil))
+//@   hint callee-preconditions-assumed
+//@   hint merge-from-start
